@@ -30,7 +30,7 @@ def canon_value(v):
 def canon_impl(r):
     """zw.Res -> (status, events)"""
     if r.crash:
-        if r.crash == "timeout":
+        if str(r.crash).startswith("timeout"):
             return ("HANG", [])
         return ("CRASH:" + str(r.crash), [])
     if r.contract:
